@@ -70,6 +70,7 @@ package keeper
 
 //@ func (msgServer).Unbond
 //@ forall d Str
+//@ instances k.GetDepositDenom(goCtx)
 //@ burns C15/unbond-burns-only-vault-shares: d == types.GetShareDenom()
 //@ decabstract
 //@ requires msg.Amount >= 0
